@@ -164,7 +164,9 @@ class UnimodalPdf(DensityEstimator):
         x = linspace(lwr, upr, 1000)
         p = self(x)
 
-        mu = simpson(p * x, x=x)
+        # integrate relative to the mode: the first moment of (x - mode) does not
+        # amplify the quadrature error of the normalisation by the offset of the data
+        mu = self.mode + simpson(p * (x - self.mode), x=x)
         var = simpson(p * (x - mu) ** 2, x=x)
         skw = simpson(p * (x - mu) ** 3, x=x) / var**1.5
         kur = (simpson(p * (x - mu) ** 4, x=x) / var**2) - 3.0
